@@ -56,7 +56,7 @@ Definition run (m : kmem) (t : nat) : Prop := fstate m t = ST_RUNNING /\ slot_mp
 Definition pre (m : kmem) (t : nat) : Prop := fstate m t = ST_WAITING /\ slot_mpmc m t = Some O.
 
 Inductive shape (m : kmem) (t : nat) : stack -> Prop :=
-| sh_done : shape m t []
+| sh_done : slot_mpmc m t = None -> shape m t []
 | sh_init p k : slot_mpmc m t = None -> shape m t [Start; FC (SNext p k)]
 | sh_sub p k : run m t -> shape m t [WFSub 0 1 5; FC (SWaitSub p k)]
 | sh_qwait p k : run m t -> shape m t [QWait 0; FC (SWaited p k)]
@@ -82,7 +82,7 @@ Inductive shape (m : kmem) (t : nat) : stack -> Prop :=
 | sh_pynext p k : run m t -> shape m t [YNext ST_RUNNING; FC (SPostDone p k)].
 
 Lemma start_shape m t p k : run m t -> shape m t (start p k).
-Proof. intros R. destruct p as [|[| |] p]; cbn; constructor; auto. Qed.
+Proof. intros R. destruct p as [|[| |] p]; cbn; constructor; auto. apply R. Qed.
 
 (* the shape of a thread only depends on its own state / slot / blocked flag *)
 Lemma shape_frame m m' t T :
@@ -634,12 +634,13 @@ Ltac boolp :=
   end.
 
 Ltac num HT :=
-  intros; unfold gstep, counter; rewrite ?HT; cbn -[Z.add Z.sub Z.max Z.opp]; rewrite ?upd_same;
+  unfold gstep, counter; rewrite ?HT; cbn -[Z.add Z.sub Z.max Z.opp]; rewrite ?upd_same;
   repeat match goal with H : slot_mpmc _ _ = _ |- _ => rewrite !H end; cbn -[Z.add Z.sub Z.max Z.opp];
+  intros;
   repeat match goal with |- context [if ?b then _ else _] => destruct b eqn:?; cbn -[Z.add Z.sub Z.max Z.opp] end;
   boolp; try lia.
 
-Ltac runsh := split; cbn; rewrite ?upd_same; auto.
+Ltac runsh := first [split; cbn; rewrite ?upd_same; solve [auto] | cbn; rewrite ?upd_same; solve [auto]].
 
 Lemma linv_step x t : LInv x -> status_of (base x) t = SReady -> LInv (istep x t).
 Proof.
@@ -648,7 +649,7 @@ Proof.
   apply Nat.ltb_lt in Hlt.
   pose proof (s_shape _ S t) as H. remember (stk (base x) t) as T eqn:HT. symmetry in HT.
   destruct (s_slots _ S t) as (SL1 & SL2 & SL3 & SL4).
-  destruct H as [ | p k R2 | p k [R1 R2] | p k [R1 R2] | p k [P1 P2] | p k [P1 P2] | p k [P1 P2] | p k [P1 P2]
+  destruct H as [ R2 | p k R2 | p k [R1 R2] | p k [R1 R2] | p k [P1 P2] | p k [P1 P2] | p k [P1 P2] | p k [P1 P2]
                 | p k [P1 P2] | p k R2 B F | p k R2 B F | p k R2 | p k [R1 R2] | p k [R1 R2] | p k [R1 R2]
                 | p k v [R1 R2] Hv | p k b [R1 R2] | p k f [R1 R2] | p k [R1 R2] | p k v [R1 R2] Hv
                 | p k [R1 R2] | p k [R1 R2] ].
@@ -733,7 +734,7 @@ Proof.
     erewrite istep_form; [|rewrite HT; cbn; unfold wake; cbn; rewrite Bf; cbn; reflexivity].
     replace (gstep (base x) t [WFAdd 0 1 5; FC (SPostAdded p k)] (g x)) with (bR (g x))
       by (unfold gstep; rewrite HT; reflexivity).
-    apply ready_step; auto; try reflexivity.
+    apply (ready_step x t p k f); auto; try reflexivity.
   - (* post: fetch_add *)
     erewrite istep_form; [|rewrite HT; cbn; reflexivity].
     loc_tac L Hlt HT; try (num HT; fail). constructor; runsh.
@@ -756,4 +757,228 @@ Qed.
 Theorem ireach_linv v progs x : 0 <= v -> ireach v progs x -> LInv x.
 Proof.
   intros Hv R. induction R as [|x t R IH E]; [apply init_linv; auto|apply linv_step; auto].
+Qed.
+
+Lemma ireach_ini v progs x : ireach v progs x -> ini x = v.
+Proof. induction 1; auto. Qed.
+
+Definition irun (x : ist) (sch : list nat) : ist :=
+  fold_left (fun y t => match status_of (base y) t with SReady => istep y t | _ => y end) sch x.
+
+Lemma ireach_irun v progs sch : forall x, ireach v progs x -> ireach v progs (irun x sch).
+Proof.
+  induction sch as [|t r IH]; intros x R; cbn; auto. apply IH.
+  destruct (status_of (base x) t) eqn:E; auto. constructor; auto.
+Qed.
+
+(* ------------------------------------------------------------------ *)
+(* the statements used by Properties_C06.v                              *)
+
+Lemma total_le w w' n : (forall t, (t < n)%nat -> w t <= w' t) -> total w n <= total w' n.
+Proof.
+  induction n as [|n IH]; intros H; cbn; [lia|].
+  specialize (IH ltac:(intros; apply H; lia)). specialize (H n ltac:(lia)). lia.
+Qed.
+
+Lemma total_sub w w' n : total (fun t => w t - w' t) n = total w n - total w' n.
+Proof. induction n as [|n IH]; cbn; lia. Qed.
+
+Lemma shape_kadd_kpp m t T : shape m t T -> kadd T <= kpp T.
+Proof. intros H. destruct H; cbn; lia. Qed.
+
+(* a post in progress that has not (yet) made any fiber READY *)
+Definition post_unwoken (T : stack) : Prop :=
+  (exists p k b, T = [WLoadW 0 2; FC (SPostLoad p k b)]) \/
+  (exists p k f, T = [QReady f; FC (SPostWoke p k)]) \/
+  (exists p k v, T = [WCasW 0 v (v + 1) 3; FC (SPostCas p k)]).
+
+Lemma shape_unwoken m t T : shape m t T -> 0 < kpp T - kadd T -> post_unwoken T /\ T <> [] /\ forall r, T <> Asleep :: r.
+Proof.
+  intros H. destruct H; cbn; try lia; intros _.
+  - split; [left; eauto|split; intros; discriminate].
+  - split; [right; left; eauto|split; intros; discriminate].
+  - split; [right; right; eauto|split; intros; discriminate].
+Qed.
+
+(* the wait call of fiber t has decremented the counter below zero and its push on
+   the waiter queue is still pending in its maintenance slot *)
+Definition announced (s : st) (t : nat) : Prop :=
+  slot_mpmc (mem s) t = Some O \/ exists r, stk s t = QWait 0 :: r.
+
+(* fiber t is inside fiber_semaphore_wait, has found no unit and no post has made it READY *)
+Definition waiting (s : st) (t : nat) : Prop := announced s t \/ asleepW s t.
+
+Lemma hi_top s t : Struct s -> (nthr s <= t)%nat -> slot_mpmc (mem s) t = None /\ exists r, stk s t = Start :: r.
+Proof.
+  intros S Ht. destruct (s_hi s S t Ht) as [r E]. split; [|eauto].
+  pose proof (s_shape s S t) as H. rewrite E in H. inversion H; auto.
+Qed.
+
+Lemma waiting_counts s t : Struct s -> waiting s t -> 1 <= NPRE s + QLEN s + NPOP s.
+Proof.
+  intros S W. destruct (counts_nonneg s) as (N1 & N2 & N3 & N4 & N5).
+  destruct W as [A|A].
+  - assert (Ht : (t < nthr s)%nat).
+    { destruct (Nat.lt_ge_cases t (nthr s)) as [|Hge]; auto. exfalso.
+      destruct (hi_top s t S Hge) as [B [r E]]. destruct A as [A|[r' A]]; [congruence|]. rewrite E in A. discriminate. }
+    destruct (own_le s t Ht) as (O1 & _).
+    assert (1 <= kslot (slot_mpmc (mem s) t) + kqwait (stk s t)).
+    { pose proof (kslot_nonneg (slot_mpmc (mem s) t)). pose proof (kqwait_nonneg (stk s t)).
+      destruct A as [A|[r A]]; [rewrite A in *; cbn [kslot] in *; lia|rewrite A in *; cbn [kqwait] in *; lia]. }
+    lia.
+  - destruct (s_blk s S t A) as [B|[u [r B]]].
+    + unfold QLEN. destruct (mq (mem s) 0%nat); [destruct B|cbn [length]; lia].
+    + assert (Hu : (u < nthr s)%nat).
+      { destruct (Nat.lt_ge_cases u (nthr s)) as [|Hge]; auto. exfalso.
+        destruct (hi_top s u S Hge) as [_ [r' E]]. rewrite E in B. discriminate. }
+      destruct (own_le s u Hu) as (_ & O2 & _). rewrite B in O2. cbn in O2. lia.
+Qed.
+
+Lemma over_admission_of_linv x : LInv x -> succeeded x <= ini x + posts_begun x.
+Proof.
+  intros [S [C0 C1 C2 C3 C4]]. unfold succeeded, posts_begun.
+  pose proof (s_bal _ S) as B.
+  assert (NADD (base x) <= NPP (base x)).
+  { apply total_le. intros t _. apply (shape_kadd_kpp (mem (base x)) t). apply (s_shape _ S). }
+  destruct (counts_nonneg (base x)) as (N1 & N2 & N3 & N4 & N5). lia.
+Qed.
+
+Lemma counter_of_linv x : LInv x ->
+  counter (base x) = ini x + gPcas (g x) + gPwake (g x) - gWfast (g x) - gWslow (g x) - gTok (g x) /\
+  Z.max 0 (- counter (base x)) = NPRE (base x) + QLEN (base x) + NPOP (base x) + NADD (base x).
+Proof. intros [S C]. split; [apply (c_c x C)|symmetry; apply (s_bal _ S)]. Qed.
+
+Lemma no_lost_post_of_linv x t : LInv x -> waiting (base x) t ->
+  counter (base x) < 0 /\
+  ini x + posts_effective x - succeeded x <= 0 /\
+  (0 < ini x + posts_begun x - succeeded x ->
+   exists u, (u < nthr (base x))%nat /\ post_unwoken (stk (base x) u) /\ status_of (base x) u = SReady).
+Proof.
+  intros [S [C0 C1 C2 C3 C4]] W. pose proof (waiting_counts _ t S W) as W1.
+  pose proof (s_bal _ S) as B.
+  destruct (counts_nonneg (base x)) as (N1 & N2 & N3 & N4 & N5).
+  unfold succeeded, posts_begun, posts_effective. repeat split; try lia.
+  intros Hp.
+  assert (0 < total (fun u => kpp (stk (base x) u) - kadd (stk (base x) u)) (nthr (base x))).
+  { rewrite total_sub. fold (NPP (base x)). fold (NADD (base x)). lia. }
+  apply total_pos in H. destruct H as [u [Hu Hk]]. exists u. split; auto.
+  destruct (shape_unwoken _ u _ (s_shape _ S u) Hk) as (A1 & A2 & A3). split; auto.
+  unfold status_of. apply Nat.ltb_lt in Hu. rewrite Hu.
+  destruct (stk (base x) u) as [|a r]; [congruence|]. destruct a; try reflexivity. exfalso. eapply A3; eauto.
+Qed.
+
+(* nothing can run: every fiber has finished or sleeps *)
+Definition quiescent (s : st) : Prop := forall t, (t < nthr s)%nat -> status_of s t <> SReady.
+(* every fiber has finished or is inside rt_block_self (possibly already made READY) *)
+Definition settled (s : st) : Prop := forall t, (t < nthr s)%nat -> stk s t = [] \/ exists r, stk s t = Asleep :: r.
+
+Lemma quiescent_settled s : quiescent s -> settled s.
+Proof.
+  intros Q t Ht. specialize (Q t Ht). unfold status_of in Q. apply Nat.ltb_lt in Ht. rewrite Ht in Q.
+  destruct (stk s t) as [|a r]; auto. right. destruct a; cbn in Q; try congruence. eauto.
+Qed.
+
+Lemma settled_counts s : Struct s -> settled s -> NPRE s = 0 /\ NPOP s = 0 /\ NADD s = 0 /\ NPP s = 0.
+Proof.
+  intros S Q.
+  assert (Z0 : forall w, (forall t, (t < nthr s)%nat -> w t = 0) -> total w (nthr s) = 0).
+  { intros w H. rewrite (total_ext w (fun _ => 0)) by auto. apply total_const0. }
+  assert (K : forall t, (t < nthr s)%nat ->
+            wpre s t = 0 /\ kpop (stk s t) = 0 /\ kadd (stk s t) = 0 /\ kpp (stk s t) = 0).
+  { intros t Ht. pose proof (s_shape s S t) as H. unfold wpre.
+    destruct (Q t Ht) as [E|[r E]]; rewrite E in *.
+    - inversion H. cbn. match goal with H : slot_mpmc _ _ = None |- _ => rewrite H end. repeat split; reflexivity.
+    - inversion H; subst; cbn; repeat split; auto;
+        match goal with H : slot_mpmc _ _ = None |- _ => rewrite H; reflexivity end. }
+  repeat split; apply Z0; intros t Ht; apply K; auto.
+Qed.
+
+Lemma settled_waiting s t : Struct s -> settled s -> waiting s t -> In t (mq (mem s) 0).
+Proof.
+  intros S Q W.
+  assert (NS : forall u a r, stk s u = a :: r -> a <> Asleep -> (u < nthr s)%nat -> False).
+  { intros u a r E Ha Hu. destruct (Q u Hu) as [E'|[r' E']]; rewrite E in E'; [discriminate|]. inversion E'. auto. }
+  destruct W as [A|A].
+  - exfalso.
+    assert (Ht : (t < nthr s)%nat).
+    { destruct (Nat.lt_ge_cases t (nthr s)) as [|Hge]; auto. exfalso.
+      destruct (hi_top s t S Hge) as [B [r E]]. destruct A as [A|[r' A]]; [congruence|]. rewrite E in A. discriminate. }
+    destruct A as [A|[r A]].
+    + pose proof (s_shape s S t) as H.
+      destruct (Q t Ht) as [E|[r E]]; rewrite E in H; inversion H; congruence.
+    + apply (NS t _ _ A); auto. discriminate.
+  - destruct (s_blk s S t A) as [B|[u [r B]]]; auto. exfalso.
+    assert (Hu : (u < nthr s)%nat).
+    { destruct (Nat.lt_ge_cases u (nthr s)) as [|Hge]; auto. exfalso.
+      destruct (hi_top s u S Hge) as [_ [r' E]]. rewrite E in B. discriminate. }
+    apply (NS u _ _ B); auto. discriminate.
+Qed.
+
+Lemma quiescence_of_linv x : LInv x -> settled (base x) ->
+  (forall t, waiting (base x) t -> In t (mq (mem (base x)) 0)) /\
+  posts_begun x = posts_effective x /\
+  (mq (mem (base x)) 0%nat <> [] ->
+     counter (base x) = - QLEN (base x) /\ ini x + posts_begun x = succeeded x).
+Proof.
+  intros [S [C0 C1 C2 C3 C4]] Q. destruct (settled_counts _ S Q) as (Z1 & Z2 & Z3 & Z4).
+  pose proof (s_bal _ S) as B. unfold succeeded, posts_begun, posts_effective.
+  split; [intros t W; apply settled_waiting; auto|]. split; [lia|].
+  intros Hne. assert (1 <= QLEN (base x)).
+  { unfold QLEN. destruct (mq (mem (base x)) 0%nat); [congruence|cbn [length]; lia]. }
+  lia.
+Qed.
+
+Lemma value_of_linv x : LInv x -> settled (base x) ->
+  counter (base x) = ini x + posts_begun x - succeeded x - QLEN (base x) /\
+  (mq (mem (base x)) 0%nat = [] -> counter (base x) = ini x + posts_begun x - succeeded x /\ 0 <= counter (base x)).
+Proof.
+  intros [S [C0 C1 C2 C3 C4]] Q. destruct (settled_counts _ S Q) as (Z1 & Z2 & Z3 & Z4).
+  pose proof (s_bal _ S) as B. unfold succeeded, posts_begun.
+  split; [lia|]. intros E. assert (QLEN (base x) = 0) by (unfold QLEN; rewrite E; reflexivity). lia.
+Qed.
+
+(* ---- trywait ---- *)
+Lemma trywait_shape s t p k : Struct s ->
+  In (FC (STryLoad p k)) (stk s t) \/ In (FC (STryCas p k)) (stk s t) ->
+  stk s t = [WLoadW 0 2; FC (STryLoad p k)] \/
+  exists v, 0 < v /\ stk s t = [WCasW 0 v (v - 1) 3; FC (STryCas p k)].
+Proof.
+  intros S H. pose proof (s_shape s S t) as Sh.
+  destruct Sh; cbn in H;
+    repeat match goal with H : _ \/ _ |- _ => destruct H as [H|H] end;
+    try discriminate; try contradiction.
+  - inversion H; subst. left; reflexivity.
+  - inversion H; subst. right; eauto.
+Qed.
+
+Lemma trywait_ready s t p k : Struct s -> (t < nthr s)%nat ->
+  In (FC (STryLoad p k)) (stk s t) \/ In (FC (STryCas p k)) (stk s t) -> status_of s t = SReady.
+Proof.
+  intros S Ht H. unfold status_of. apply Nat.ltb_lt in Ht. rewrite Ht.
+  destruct (trywait_shape s t p k S H) as [E|[v [_ E]]]; rewrite E; reflexivity.
+Qed.
+
+Lemma trywait_load_step s t p k :
+  stk s t = [WLoadW 0 2; FC (STryLoad p k)] ->
+  snd (step s t) = ev t (l_word 0) 22 (pc64 (counter s)) ++ (if 0 <? counter s then [] else retev t k 0) /\
+  counter (fst (step s t)) = counter s.
+Proof.
+  intros E. unfold step, counter. rewrite E. cbn.
+  destruct (0 <? word (mem s) 0); cbn; auto.
+Qed.
+
+Lemma trywait_cas_step s t p k v :
+  stk s t = [WCasW 0 v (v - 1) 3; FC (STryCas p k)] ->
+  if counter s =? v
+  then snd (step s t) = ev t (l_word 0) 73 (pc64 (v - 1)) ++ retev t k 1 /\ counter (fst (step s t)) = v - 1
+  else snd (step s t) = ev t (l_word 0) 83 (pc64 (counter s)) /\ counter (fst (step s t)) = counter s.
+Proof.
+  intros E. unfold step, counter. rewrite E. cbn.
+  destruct (word (mem s) 0 =? v); cbn; auto.
+Qed.
+
+Lemma reachable_struct v progs s : 0 <= v -> reachable M (init v progs) s -> Struct s.
+Proof.
+  intros Hv R. destruct (reachable_ireach v progs s R) as [x [Rx <-]].
+  apply (ireach_linv v progs x Hv Rx).
 Qed.
